@@ -1,11 +1,10 @@
 use std::collections::HashSet;
 
 use naga::{Handle, Type};
-use proc_macro2::{Literal, Span, TokenStream};
+use proc_macro2::{Literal, TokenStream};
 use quote::quote;
-use syn::Ident;
 
-use crate::{wgsl::rust_type, WriteOptions};
+use crate::{name_to_ident, wgsl::rust_type, WriteOptions};
 
 pub fn structs(module: &naga::Module, options: WriteOptions) -> TokenStream {
     // Initialize the layout calculator provided by naga.
@@ -65,7 +64,7 @@ fn rust_struct(
     options: WriteOptions,
     global_variable_types: &HashSet<Handle<Type>>,
 ) -> TokenStream {
-    let struct_name = Ident::new(t.name.as_ref().unwrap(), Span::call_site());
+    let struct_name = name_to_ident(t.name.as_ref().unwrap());
 
     // Skip builtins since they don't require user specified data.
     let members: Vec<_> = members
@@ -77,7 +76,7 @@ fn rust_struct(
     let assert_member_offsets: Vec<_> = members
         .iter()
         .map(|m| {
-            let name = Ident::new(m.name.as_ref().unwrap(), Span::call_site());
+            let name = name_to_ident(m.name.as_ref().unwrap());
             let rust_offset = quote!(std::mem::offset_of!(#struct_name, #name));
 
             let wgsl_offset = Literal::usize_unsuffixed(m.offset as usize);
@@ -209,7 +208,7 @@ fn struct_members(
         .iter()
         .enumerate()
         .map(|(index, member)| {
-            let member_name = Ident::new(member.name.as_ref().unwrap(), Span::call_site());
+            let member_name = name_to_ident(member.name.as_ref().unwrap());
             let ty = &module.types[member.ty];
 
             if let naga::TypeInner::Array {
